@@ -91,6 +91,7 @@ def main():
     import ctypes  # noqa: F401
     from . import ops, canon, c20  # noqa: F401
     ops.corpus()
+    ops.cleanup_lines()      # parsed once here, inherited by every child
     _die_with_parent()
     signal.signal(signal.SIGCHLD, signal.SIG_IGN)  # auto-reap children
     srv = socket.socket(socket.AF_UNIX, socket.SOCK_STREAM)
